@@ -63,33 +63,20 @@ where
             self.l3s.pop_front();
         }
 
-        if self.l0s.len() < 2 {
-            self.l0s.push_back(T::zero());
-            self.l1s.push_back(T::zero());
-            self.l2s.push_back(T::zero());
-            self.l3s.push_back(T::zero());
-            return;
-        } else {
-            let last = self.l0s.len() - 1;
-            self.l0s.push_back(
-                (T::one() - self.gamma) * val + self.gamma * *self.l0s.get(last - 1).unwrap(),
-            );
-            self.l1s.push_back(
-                -self.gamma * *self.l0s.get(last).unwrap()
-                    + *self.l0s.get(last - 1).unwrap()
-                    + self.gamma * *self.l1s.get(last - 1).unwrap(),
-            );
-            self.l2s.push_back(
-                -self.gamma * *self.l1s.get(last).unwrap()
-                    + *self.l1s.get(last - 1).unwrap()
-                    + self.gamma * *self.l2s.get(last - 1).unwrap(),
-            );
-            self.l3s.push_back(
-                -self.gamma * *self.l2s.get(last).unwrap()
-                    + *self.l2s.get(last - 1).unwrap()
-                    + self.gamma * *self.l3s.get(last - 1).unwrap(),
-            );
-        }
+        // Stage values of the previous step (zero initial state, as in the paper):
+        // L0 = (1 - g) x + g L0[1];  Lk = -g L(k-1) + L(k-1)[1] + g Lk[1]
+        let l0_1 = self.l0s.back().copied().unwrap_or_else(T::zero);
+        let l1_1 = self.l1s.back().copied().unwrap_or_else(T::zero);
+        let l2_1 = self.l2s.back().copied().unwrap_or_else(T::zero);
+        let l3_1 = self.l3s.back().copied().unwrap_or_else(T::zero);
+        let l0 = (T::one() - self.gamma) * val + self.gamma * l0_1;
+        let l1 = -self.gamma * l0 + l0_1 + self.gamma * l1_1;
+        let l2 = -self.gamma * l1 + l1_1 + self.gamma * l2_1;
+        let l3 = -self.gamma * l2 + l2_1 + self.gamma * l3_1;
+        self.l0s.push_back(l0);
+        self.l1s.push_back(l1);
+        self.l2s.push_back(l2);
+        self.l3s.push_back(l3);
         let last = self.l0s.len() - 1;
 
         let mut cu = T::zero();
